@@ -28,7 +28,15 @@ def jobs(tier, seed):
         start = {"fam": fam, "knobs": {}}
         for elabel, d in edits_for(fam)(start):
             out.append({"start": start, "first": (elabel, d), "depth": depth})
+    # other starting points: an optional producer that is needed by one consumer
+    for start in EXTRA_STARTS:
+        for elabel, d in edits_for(start["fam"])(start):
+            out.append({"start": start, "first": (elabel, d), "depth": depth})
     return out
+
+
+EXTRA_STARTS = [{"fam": "f_failwrite", "knobs": {"need": "OPTIONAL", "consumer": 1}},
+                {"fam": "f_failwrite", "knobs": {"need": "OPTIONAL", "consumer": 1, "outdir": "gen/sub"}}]
 
 
 def edits_for(fam):
